@@ -105,7 +105,8 @@ def forbidden_tokens():
 
 
 def theorems_for(pid):
-    return json.load(open(os.path.join(LEAN, "theorems.json"))).get(pid, [])
+    path = os.path.join(LEAN, "theorems", f"{pid}.json")
+    return json.load(open(path)) if os.path.exists(path) else []
 
 
 def audit(pid, log):
